@@ -212,7 +212,7 @@ F(S, c) ==
     [] m = "KB" ->
          IF isWS \/ isNL THEN S
          ELSE IF c = 40 THEN Single(S, "CO", p)
-         ELSE IF S.mode.a = <<2>> /\ c = 35 THEN StartComment(S)
+         ELSE IF c = 35 THEN StartComment(S)            \* a comment between the directive and its body (every body-carrying directive)
          ELSE IF S.mode.a = <<2>> /\ c \in {66, 72, 80, 73} THEN F(SetM(S, M("EK")), c)
          ELSE PopRefeed(S, c)
     [] m = "PHB" ->
